@@ -996,7 +996,8 @@ func evalActionAdd(node *ActionExpression, env *Environment) Object {
 		return addObj.Add(val)
 	}
 
-	return UNDEFINED
+	// ADD works on top-level attributes only: a document path is refused instead of being ignored
+	return newError("ADD can only be used on top-level attributes, not nested attributes: %s", node.Left.String())
 }
 
 func evalActionDelete(node *ActionExpression, env *Environment) Object {
@@ -1032,7 +1033,8 @@ func evalActionDelete(node *ActionExpression, env *Environment) Object {
 		return result
 	}
 
-	return UNDEFINED
+	// DELETE works on top-level attributes only: a document path is refused instead of being ignored
+	return newError("DELETE can only be used on top-level attributes, not nested attributes: %s", node.Left.String())
 }
 
 func isEmptySet(obj Object) bool {
